@@ -115,6 +115,7 @@ def check(case, stats):
         return check_direct(case, stats)
     from panoptica import InputType
 
+    lib.run_primes(case.get("primes"))
     pred, ref, cfg = c01.resolve(case)
     mets = PM.METRICS + (["clDSC"] if case.get("cldsc") else [])
     cfg["imetrics"] = mets
